@@ -27,7 +27,7 @@ def _round(a, dtype):
 
 def gen_world(rng, fmt=None, apdep=None, n_models=(1, 8), n_ap=(1, 5), n_wav=(5, 40),
               n_filters=(1, 3), filt_desc=False, allow_mixed=False, dtypes=('f8', 'f4'),
-              allow_gz=True, allow_subdir=True, n_par=(1, 4)):
+              allow_gz=True, allow_subdir=True, n_par=(1, 4), allow_zero_band=False):
     w = {}
     w['format'] = fmt if fmt is not None else rng.choice([1, 2])
     w['apdep'] = apdep if apdep is not None else rng.random() < 0.5
@@ -58,6 +58,9 @@ def gen_world(rng, fmt=None, apdep=None, n_models=(1, 8), n_ap=(1, 5), n_wav=(5,
     if w['format'] == 2 and w['dtype'] == 'f8':
         w['flux_unit'] = rng.choice(['mJy', 'Jy'])         # cubes hold flux densities
     w['ext_n'] = rng.choice([3, 8, 40])
+    # one model may have exactly zero flux where one filter is sensitive (a legal grid: sedfitter treats a zero
+    # convolved flux as 'invalid'); its fits come out non-finite and sit among finite ones in every result
+    w['zero_band'] = [rng.randrange(w['n_models']), rng.randrange(nf)] if (allow_zero_band and w['n_models'] > 1 and rng.random() < 0.25) else None
     return w
 
 
@@ -144,6 +147,22 @@ class World(object):
                 fnu, fr = fnu[::-1].copy(), fr[::-1].copy()
             fr = ref_norm(fnu, fr)
             self.fspec.append({'name': f['name'], 'center': c, 'nu': fnu, 'r': fr})
+        if spec.get('zero_band'):
+            m, j = spec['zero_band']
+            m, j = m % nm, j % len(self.fspec)
+            lam = 299792458.0e6 / self.fspec[j]['nu']
+            wv, v, e = self.sed[m]
+            mask = (wv >= lam.min() * 0.5) & (wv <= lam.max() * 2.0)
+            v = v.copy()
+            e = e.copy()
+            v[:, mask] = 0.0
+            e[:, mask] = 0.0
+            self.sed[m] = (wv, v, e)
+            if wv is self.wav:
+                self.val = self.val.copy()
+                self.unc = self.unc.copy()
+                self.val[m] = v
+                self.unc[m] = e
         self.ext_wav = np.logspace(-2, 4, int(spec.get('ext_n', 40)))
         self.ext_chi = 100.0 * self.ext_wav ** (-spec['ext_slope'])
 
